@@ -207,6 +207,8 @@ inductive Op where
   | append (y : String) (a v : Arg) (newCap : Nat)          -- y = a + v
   | len (a : Arg)
   | delete (a k : Arg)
+  | load (y : String) (a i : Arg)                          -- y = a[i]  (also `var y = a[i]`): binds the VALUE read
+  | swap (x : String) (i j : Arg)                          -- x[i], x[j] = x[j], x[i]
   deriving Repr, Inhabited
 
 def badKeyMsg (es : List (V × V)) : String :=
@@ -313,11 +315,37 @@ def Heap.step (h : Heap) : Op → Heap × Out
          | none => (h, .err "bad map"))
     | some v, some _ => (h, .err ("first argument to delete cannot be type " ++ kindName v))
     | _, _ => (h, .err "undefined symbol")
+  | .load _ _ _ => (h, .err "unsupported")     -- see step2
+  | .swap _ _ _ => (h, .err "unsupported")
+
+/-- the two operations that bind / move values read from a container -/
+def Heap.step2 (h : Heap) : Op → Heap × Out
+  | .load y a i =>
+    (match h.arg a, h.arg i with
+     | some item, some idx =>
+       (match h.index item idx with
+        | .ok v => (h.setVar y v, .ok v)
+        | .err m => (h, .err m))
+     | _, _ => (h, .err "undefined symbol"))
+  | .swap x i j =>
+    (match h.getVar x, h.arg i, h.arg j with
+     | some (.slice s), some ii, some jj =>
+       -- both right-hand sides are read before either store
+       (match h.index (.slice s) jj, h.index (.slice s) ii with
+        | .ok vj, .ok vi =>
+          (match tryToInt ii, tryToInt jj with
+           | some ki, some kj => ((h.writeElem s ki.toNat vj).writeElem s kj.toNat vi, .ok vi)
+           | _, _ => (h, .err "index must be a number"))
+        | .err m, _ => (h, .err m)
+        | _, .err m => (h, .err m))
+     | some _, some _, some _ => (h, .err "unsupported")
+     | _, _, _ => (h, .err "undefined symbol"))
+  | op => h.step op
 
 def Heap.run (h : Heap) : List Op → Heap × List Out
   | [] => (h, [])
   | op :: ops =>
-    let r := h.step op
+    let r := h.step2 op
     let rest := r.1.run ops
     (rest.1, r.2 :: rest.2)
 
